@@ -31,6 +31,9 @@ def run(repo, run, tier):
     # 'however many events are monitored': the first crossing of one event must not be dropped by the duplicate filter reading another event's record
     from .c07 import sentinel
     sentinel(repo, run, m, rule_id="C08.7")
+    # found crossings are discarded in one place only (after the first terminal event): that must act on time-ordered arrays, all three alike
+    from .c09 import truncation
+    truncation(repo, run, rule_id="C08.8")
 
 
 def pruning(repo, run, m):
